@@ -209,6 +209,11 @@ impl<F: RichField + Extendable<D>, C: GenericConfig<D, F = F>, const D: usize>
     ) -> anyhow::Result<ProofWithPublicInputs<F, C, D>> {
         let challenges =
             self.get_challenges(self.get_public_inputs_hash(), circuit_digest, common_data)?;
+        crate::plonk::validate_shape::validate_compressed_proof_with_pis_shape(
+            &self,
+            &challenges,
+            common_data,
+        )?;
         let fri_inferred_elements = self.get_inferred_elements(&challenges, common_data);
         let decompressed_proof =
             self.proof
@@ -232,6 +237,11 @@ impl<F: RichField + Extendable<D>, C: GenericConfig<D, F = F>, const D: usize>
         let challenges = self.get_challenges(
             public_inputs_hash,
             &verifier_data.circuit_digest,
+            common_data,
+        )?;
+        crate::plonk::validate_shape::validate_compressed_proof_with_pis_shape(
+            &self,
+            &challenges,
             common_data,
         )?;
         let fri_inferred_elements = self.get_inferred_elements(&challenges, common_data);
